@@ -36,6 +36,14 @@ func (p *Path) foldStep(f *FoldDecl, k, d, ch string) (string, string, bool) {
 	args := func() []Expr { return []Expr{&EIdent{Name: "%k"}, &EIdent{Name: "%d"}, &EIdent{Name: "%c"}} }
 	cc := c.with(map[string]Val{"%k": {T: k, Ty: tInt}, "%d": {T: d, Ty: tInt}, "%c": {T: ch, Ty: tInt}})
 	nk, err1 := cc.Eval(&ECall{Fun: f.StepK, Args: args()})
+	if f.StepD == "-" {
+		// no depth component: D is constantly 0
+		if err1 != nil {
+			p.specError("fold "+f.Name, Clause{Src: f.StepK}, err1)
+			return k, d, false
+		}
+		return nk.T, "0", true
+	}
 	nd, err2 := cc.Eval(&ECall{Fun: f.StepD, Args: args()})
 	if err1 != nil || err2 != nil {
 		p.specError("fold "+f.Name, Clause{Src: f.StepK + "/" + f.StepD}, fmt.Errorf("%v %v", err1, err2))
@@ -53,6 +61,9 @@ func (p *Path) foldFns(f *FoldDecl) (fk, fd string) {
 		env.declared[key] = true
 		env.decls = append(env.decls, fmt.Sprintf("(assert (forall ((a Ref) (o Int) (n Int)) (! (=> (= n 0) (and (= (%s a o n) %s) (= (%s a o n) %s))) :pattern ((%s a o n)) :pattern ((%s a o n)))))", fk, smtInt(f.InitK), fd, smtInt(f.InitD), fk, fd))
 		env.assumptions["fold ghost "+f.Name+": state is a function of the slice value (append-only buffers)"] = true
+		if f.StepD == "-" {
+			env.decls = append(env.decls, fmt.Sprintf("(assert (forall ((a Ref) (o Int) (n Int)) (! (= (%s a o n) 0) :pattern ((%s a o n)))))", fd, fd))
+		}
 	}
 	return
 }
@@ -73,6 +84,9 @@ func (p *Path) foldRunFns(f *FoldDecl, str bool) (rk, rd string) {
 			lenf = "(slen x)"
 		}
 		env.decls = append(env.decls, fmt.Sprintf("(assert (forall ((k Int) (d Int) (x %s)) (! (=> (= %s 0) (and (= (%s k d x) k) (= (%s k d x) d))) :pattern ((%s k d x)))))", srt, lenf, rk, rd, rk))
+		if f.StepD == "-" {
+			env.decls = append(env.decls, fmt.Sprintf("(assert (forall ((k Int) (d Int) (x %s)) (! (= (%s k d x) d) :pattern ((%s k d x)))))", srt, rd, rd))
+		}
 	}
 	return
 }
@@ -207,6 +221,21 @@ func (fx *FnCtx) foldAxioms() {
 			if !ok1 || !ok2 {
 				continue
 			}
+			if rl.B != "" {
+				bpd := env.specs.Pures[rl.B]
+				if bpd == nil || len(bpd.Params) != 2 {
+					fx.errors = append(fx.errors, "runmove "+rl.Name+": B(k,d) must be a pure function")
+					continue
+				}
+				bq, ok3 := pred(rl.B, map[string]Val{"%" + bpd.Params[0].Name: {T: fmt.Sprintf("(%s k d x)", rk), Ty: tInt}, "%" + bpd.Params[1].Name: {T: fmt.Sprintf("(%s k d x)", rd), Ty: tInt}})
+				if !ok3 {
+					continue
+				}
+				env.decls = append(env.decls, fmt.Sprintf("; run lemma %s (induction schema over the run length; one-step obligations lemma.%s.step)\n(assert (forall ((k Int) (d Int) (x %s)) (! (=> (and %s (> %s 0)) (or (exists ((i Int)) (and (<= 0 i) (< i %s) (not %s))) %s)) :pattern ((%s k d x)))))",
+					rl.Name, rl.Name, srt, q, lenx, lenx, pc, bq, rk))
+				env.assumptions["run lemma "+rl.Name+": induction over the run length (engine schema); its one-step obligations are proved"] = true
+				continue
+			}
 			env.decls = append(env.decls, fmt.Sprintf("; run lemma %s (induction schema over the run length; one-step obligation lemma.%s.step)\n(assert (forall ((k Int) (d Int) (x %s)) (! (=> %s (or (exists ((i Int)) (and (<= 0 i) (< i %s) (not %s))) (and (= (%s k d x) k) (= (%s k d x) d)))) :pattern ((%s k d x)))))",
 				rl.Name, rl.Name, srt, q, lenx, pc, rk, rd, rk))
 			env.assumptions["run lemma "+rl.Name+": induction over the run length (engine schema); its one-step obligation is proved"] = true
@@ -273,6 +302,22 @@ func (p *Path) lemmaObligations() {
 		pc, err2 := cq.Eval(&ECall{Fun: rl.P, Args: []Expr{&EIdent{Name: "%c"}}})
 		nk, nd, ok := p.foldStep(f, "lk", "ld", "lc")
 		if err1 != nil || err2 != nil || !ok {
+			continue
+		}
+		if rl.B != "" {
+			bpd := env.specs.Pures[rl.B]
+			if bpd == nil || len(bpd.Params) != 2 {
+				continue
+			}
+			b0, err3 := cq.Eval(&ECall{Fun: rl.B, Args: []Expr{&EIdent{Name: "%k"}, &EIdent{Name: "%d"}}})
+			cb := c.with(map[string]Val{"%k": {T: nk, Ty: tInt}, "%d": {T: nd, Ty: tInt}})
+			b1, err4 := cb.Eval(&ECall{Fun: rl.B, Args: []Expr{&EIdent{Name: "%k"}, &EIdent{Name: "%d"}}})
+			if err3 != nil || err4 != nil {
+				continue
+			}
+			form := fmt.Sprintf("(forall ((lk Int) (ld Int) (lc Int)) (=> (and (<= 0 lc) (< lc 256) (or %s %s) %s) %s))", q.T, b0.T, pc.T, b1.T)
+			ob := &Oblig{Name: fx.short + ".lemma." + rl.Name + ".step", Fn: fx.short, Kind: "lemma", Clause: fmt.Sprintf("one step of run lemma %s: (%s(k,d) || %s(k,d)) && %s(c) ==> %s(step(k,d,c))", rl.Name, rl.Q, rl.B, rl.P, rl.B), Formula: form}
+			p.items = append(p.items, Item{Ob: ob})
 			continue
 		}
 		form := fmt.Sprintf("(forall ((lk Int) (ld Int) (lc Int)) (=> (and (<= 0 lc) (< lc 256) %s %s) (and (= %s lk) (= %s ld))))", q.T, pc.T, nk, nd)
